@@ -4,5 +4,7 @@ set -e
 cd "$(dirname "$0")"
 export CARGO_NET_OFFLINE=true
 (cd weave && cargo build --release --offline 2>&1 | tail -2)
+# the bounded BTOR2 stand-in is (re)built by the checks against the tree they examine; building it once here only warms the cargo cache
+python3 -c "import sys; sys.path.insert(0, '.'); from vp import engines as E; exe, msg = E.build_standin(); print('standin', 'built' if exe else 'NOT built: ' + msg[-300:])" || true
 verus --version | head -2
 echo setup-ok
